@@ -74,6 +74,11 @@ func (k *kitImpl) Cmd(key string, val int) error {
 			time.Sleep(time.Duration(val) * time.Millisecond)
 			syscall.Kill(os.Getpid(), syscall.SIGKILL)
 		}()
+	case "rawout":
+		// lines on the REAL stdout (fd 1; Serve has replaced os.Stdout by its own pipe), after the handshake line
+		for i := 0; i < val; i++ {
+			syscall.Write(1, []byte(fmt.Sprintf("extra stdout line %d\n", i)))
+		}
 	case "noop":
 	default:
 		return fmt.Errorf("unknown kit command %q", key)
